@@ -54,6 +54,14 @@ func detScenario(id, rom string, seed int64, frames int) *trace.Scenario {
 	sc := &trace.Scenario{ID: id, Reset: []any{"det", rom, seed, frames}}
 	perr := machine.Try(func() {
 		a := detRun(rom, seed, frames)
+		// between the two runs the process hosts an emulator with a *different* configuration (debug colours on, other
+		// outputs): "the same configuration gives the same result" must not depend on what else the process has run
+		func() {
+			other := gameboy.New(gameboy.Config{RomFilename: rom, DebugLCD: true, DisableAudioOutput: seed%2 == 0, SerialWriter: &bytes.Buffer{}})
+			other.VerifRunFrame(context.Background())
+			other.VerifRunFrame(context.Background())
+			other.Cleanup()
+		}()
 		b := detRun(rom, seed, frames)
 		// third run in a separate process
 		self, _ := os.Executable()
